@@ -17,6 +17,11 @@ class MethodObject:
         self.pyfunction = pyname.get_object()
         self.pymodule = self.pyfunction.get_module()
         self.resource = self.pymodule.get_resource()
+        if self.resource is None or self.resource.project != project:
+            raise exceptions.RefactoringError(
+                "Replace method with method object refactoring should be "
+                "performed on a function defined in this project."
+            )
 
     def get_new_class(self, name):
         body = sourceutils.fix_indentation(
